@@ -557,6 +557,16 @@ fn get_cell_from_excel(
     }
 }
 
+// Resolves a relationship target of the form "../file.xml" against the folder that contains "worksheets"
+fn relative_target(target: &str, folder: &str) -> Result<String, XlsxError> {
+    match target.strip_prefix("..") {
+        Some(rest) => Ok(format!("{folder}{rest}")),
+        None => Err(XlsxError::Xml(format!(
+            "Unsupported relationship target '{target}'"
+        ))),
+    }
+}
+
 fn load_sheet_rels<R: Read + std::io::Seek>(
     archive: &mut zip::read::ZipArchive<R>,
     path: &str,
@@ -567,10 +577,14 @@ fn load_sheet_rels<R: Read + std::io::Seek>(
     let mut comments = Vec::new();
     // relationship id ("rId4") -> target of the hyperlink
     let mut hyperlinks = HashMap::new();
-    let v: Vec<&str> = path.split("/worksheets/").collect();
-    let mut path = v[0].to_string();
+    let (folder, sheet_file) = match path.split_once("/worksheets/") {
+        Some(parts) => parts,
+        // a sheet stored elsewhere has no relationships we know how to find
+        None => return Ok((comments, hyperlinks)),
+    };
+    let mut path = folder.to_string();
     path.push_str("/worksheets/_rels/");
-    path.push_str(v[1]);
+    path.push_str(sheet_file);
     path.push_str(".rels");
     let file = archive.by_name(&path);
     if file.is_err() {
@@ -590,23 +604,22 @@ fn load_sheet_rels<R: Read + std::io::Seek>(
     for rel in rels {
         let t = get_attribute(&rel, "Type")?.to_string();
         if t.ends_with("comments") {
-            let mut target = get_attribute(&rel, "Target")?.to_string();
+            let target = get_attribute(&rel, "Target")?.to_string();
             // Target="../comments1.xlsx"
-            target.replace_range(..2, v[0]);
+            let target = relative_target(&target, folder)?;
             comments = load_comments(archive, &target)?;
         } else if t.ends_with("hyperlink") {
             let id = get_attribute(&rel, "Id")?.to_string();
             let target = get_attribute(&rel, "Target")?.to_string();
             hyperlinks.insert(id, target);
         } else if t.ends_with("table") {
-            let mut target = get_attribute(&rel, "Target")?.to_string();
+            let target = get_attribute(&rel, "Target")?.to_string();
 
             let path = if let Some(p) = target.strip_prefix('/') {
                 p.to_string()
             } else {
                 // Target="../table1.xlsx"
-                target.replace_range(..2, v[0]);
-                target
+                relative_target(&target, folder)?
             };
 
             let table = load_table(archive, &path, sheet_name)?;
